@@ -493,7 +493,11 @@ impl IoLoop {
                 | ConnectionState::ClientClosed => (),
             },
             Token(n) if n <= u16::max_value() as usize => {
-                self.inner.handle_channel_readable(n as u16)?
+                self.inner.handle_channel_readable(
+                    n as u16,
+                    &self.poll,
+                    self.buffered_writes_high_water,
+                )?
             }
             _ => unreachable!(),
         }
@@ -824,7 +828,12 @@ impl Inner {
         }
     }
 
-    fn handle_channel_readable(&mut self, channel_id: u16) -> Result<()> {
+    fn handle_channel_readable(
+        &mut self,
+        channel_id: u16,
+        poll: &Poll,
+        high_water: usize,
+    ) -> Result<()> {
         loop {
             let slot = match self.chan_slots.get(channel_id) {
                 Some(slot) => slot,
@@ -839,6 +848,23 @@ impl Inner {
                     return Ok(());
                 }
             };
+            // Apply backpressure inside the drain as well: a fast publisher can keep this
+            // queue non-empty for as long as we keep pulling from it. Once we are past the
+            // high water mark, stop; the main loop deregisters the channels at the end of
+            // this iteration. Re-arm the (edge-triggered) receiver first so that whatever is
+            // still queued wakes us up again when the channels are listened to.
+            if self.outbuf.len() > high_water {
+                if self.channels_are_registered {
+                    poll.reregister(
+                        &slot.rx,
+                        Token(channel_id as usize),
+                        Ready::readable(),
+                        PollOpt::edge(),
+                    )
+                    .context(RegisterWithPollHandleSnafu)?;
+                }
+                return Ok(());
+            }
             match slot.rx.try_recv() {
                 Ok(message) => self.process_channel_message(channel_id, message)?,
                 Err(TryRecvError::Empty) => return Ok(()),
